@@ -794,6 +794,14 @@ def check_stop(E):
             else:
                 toks = addtoks(toks, node['id'], ())
             return [(runv, cleared, q, toks)]
+        if kind == 'rmw' and ev[1] == RUN and ev[2] == 'exchange' and (sy.atomic_op(ev[3]) or {}).get('value') is False:
+            # exchange(false): an atomic store of false (it takes the place of the plain store in the handshake) whose result is
+            # the previous value - false means the loop was not running and nothing changed
+            a_ = sy.atomic_op(ev[3])
+            if a_.get('order') != SEQ_CST:
+                found.viol(R1, FN, 'weak-memory-order', 'stop() clears shouldBeRunning with exchange(false, %s); the handshake needs '
+                           'seq_cst' % oname(a_.get('order')), ev[3])
+            return [(None, True, 0, addtoks(frozenset(), ev[3]['id'], {(ev[3]['id'], 'xrun', 1)}))]
         if kind == 'rmw' and ev[1] in FLAGS:
             found.und(R1, 'read-modify-write %s on %s: not modelled' % (ev[2], ev[1][1]), ev[3])
         if kind == 'wait':
@@ -833,6 +841,10 @@ def check_stop(E):
                 continue
             if t[1] == 'run':
                 runv = truth
+            elif t[1] == 'xrun':
+                runv = truth
+                if not truth:
+                    cleared = False         # the flag was already false: this stop() changed nothing (redundant stop)
             elif t[1] == 'inside' and not truth:
                 q = 1 if t[2] == 1 else (q or 2)
         return [(runv, cleared, q, toks)]
@@ -876,7 +888,7 @@ def check_signals(E, f, label, fnkey):
     nstores = set()
     park = E.park_flags or set()
 
-    # state: (locks, known, owe, nscope, cs, toks)
+    # state: (locks, known, owe, nscope, cs, toks, bv)     bv: local bools with a known constant value
     #   owe: (flag name, critical section number, condition variable) of predicate-enabling stores still waiting for their
     #   notify on that condition variable; nscope: condition variables notified in the current critical section; cs: number of
     #   the current / last critical section of runningMutex; toks: (load node or local, park flag, cs) = value of a "parked"
@@ -884,13 +896,22 @@ def check_signals(E, f, label, fnkey):
     def transfer(blk, i, e, st):
         if i == 0:
             cur['at'] = (blk.id, st)
-        locks, known, owe, nscope, cs, toks = st
+        locks, known, owe, nscope, cs, toks, bv = st
         ev = sy.event(e)
         n = tu.node(e[1]) if e[0] == 'S' else None
         if ev is None:
             if n is not None:
                 toks = local_copy(tu, n, toks)
-            return [(locks, known, owe, nscope, cs, toks)]
+                if n.get('kind') == 'DeclStmt':
+                    for v_ in tu.kids(n):
+                        if v_.get('kind') == 'VarDecl' and tu.kids(v_) and sy.const_bool(tu.kids(v_)[-1]) is not None and \
+                                (v_.get('type', {}).get('qualType') or '').replace('const ', '') == 'bool':
+                            bv = frozenset({p_ for p_ in bv if p_[0] != v_['id']} | {(v_['id'], sy.const_bool(tu.kids(v_)[-1]))})
+                elif n.get('kind') == 'BinaryOperator' and n.get('opcode') == '=' and sy.local_var(tu.kids(n)[0]) is not None:
+                    var = sy.local_var(tu.kids(n)[0])
+                    cb = sy.const_bool(tu.kids(n)[1])
+                    bv = frozenset({p_ for p_ in bv if p_[0] != var} | ({(var, cb)} if cb is not None else set()))
+            return [(locks, known, owe, nscope, cs, toks, bv)]
         kind = ev[0]
         if kind in ('locks', 'unlock-scope', 'lk-unlock', 'lk-lock', 'm-lock', 'm-unlock', 'lk-other', 'm-other'):
             locks2, known, prob = LockState.apply(locks, known, ev)
@@ -900,9 +921,9 @@ def check_signals(E, f, label, fnkey):
                 nscope = frozenset()
                 if LockState.holds(locks2, MTX):
                     cs = min(cs + 1, 6)
-            return [(locks2, known, owe, nscope, cs, toks)]
+            return [(locks2, known, owe, nscope, cs, toks, bv)]
         if kind == 'load' and ev[1] in park and LockState.holds(locks, MTX):
-            return [(locks, known, owe, nscope, cs, addtoks(toks, ev[3]['id'], {(ev[3]['id'], ev[1], cs)}))]
+            return [(locks, known, owe, nscope, cs, addtoks(toks, ev[3]['id'], {(ev[3]['id'], ev[1], cs)}), bv)]
         if kind == 'store':
             _k, fld, val, order, node = ev
             vals = (True, False) if val is None else (val,)
@@ -918,11 +939,11 @@ def check_signals(E, f, label, fnkey):
                 for c in cvs:
                     if not (c in nscope and LockState.holds(locks, MTX)):
                         owe = frozenset(set(owe) | {(fld[1], cs if LockState.holds(locks, MTX) else -1, c)})
-            return [(locks, known, owe, nscope, cs, toks)]
+            return [(locks, known, owe, nscope, cs, toks, bv)]
         if kind == 'notify':
             if ev[1] != CV and ev[1] in E.enab:
                 return [(locks, known, frozenset(o for o in owe if o[2] != ev[1]),
-                         frozenset(set(nscope) | {ev[1]}) if LockState.holds(locks, MTX) else nscope, cs, toks)]
+                         frozenset(set(nscope) | {ev[1]}) if LockState.holds(locks, MTX) else nscope, cs, toks, bv)]
             if ev[1] == CV:
                 if getattr(E, 'cv_shared', False) is True and last(tu.sd(ev[2]).get('q')) == 'notify_one':
                     found.viol(R3, fnkey, 'notify-one-on-shared-condvar', 'notify_one() on a condition variable that all AsyncLoop '
@@ -931,7 +952,7 @@ def check_signals(E, f, label, fnkey):
                                'start() is not seen within bounded time, the destructor hangs in join(). Use notify_all() or '
                                'per-instance state', ev[2])
                 return [(locks, known, frozenset(o for o in owe if o[2] != CV),
-                         frozenset(set(nscope) | {CV}) if LockState.holds(locks, MTX) else nscope, cs, toks)]
+                         frozenset(set(nscope) | {CV}) if LockState.holds(locks, MTX) else nscope, cs, toks, bv)]
             return [st]
         return [st]
 
@@ -941,15 +962,17 @@ def check_signals(E, f, label, fnkey):
         if tid is None:
             return [st]
         truth = E.tok_truth(tid, truth)
-        locks, known, owe, nscope, cs, toks = st
+        locks, known, owe, nscope, cs, toks, bv = st
+        if atom.get('kind') == 'DeclRefExpr' and dict(bv).get(tid) is not None and dict(bv)[tid] != truth:
+            return []               # a local bool with a known constant value cannot take the other branch
         for t in toks:
             if t[0] == tid and not truth:
                 # "nobody is parked", read in critical section t[2]: a store made in that same critical section needs no notify -
                 # a waiter that has not blocked yet evaluates its predicate under the mutex after this section and sees the store
                 owe = frozenset(o for o in owe if not (o[1] == t[2] and o[2] == CV))
-        return [(locks, known, owe, nscope, cs, toks)]
+        return [(locks, known, owe, nscope, cs, toks, bv)]
 
-    res, outs = E.inl.explore(f, [(frozenset(), frozenset(), frozenset(), frozenset(), 0, frozenset())], transfer, refine,
+    res, outs = E.inl.explore(f, [(frozenset(), frozenset(), frozenset(), frozenset(), 0, frozenset(), frozenset())], transfer, refine,
                               C03Hooks(E, found, R3, toks_idx=5))
     for (st, _rv, via) in outs:
         if g.blocks[via].noret:
